@@ -94,7 +94,13 @@ pub fn gen_node(r: &mut Rng, tier: &str, rooms: u8, nondyadic: bool, name: &'sta
                 nondyadic,
                 allow_freeable: i % 3 != 0,
             };
-            let mut inst = if nondyadic && i % 6 == 5 { gen::gen_f32_corner(r) } else { gen::gen_instance(r, &p) };
+            let mut inst = if nondyadic && i % 6 == 5 {
+                if i % 12 == 5 { gen::gen_f32_corner(r) } else { gen::gen_f32_shrink_does_not_fit(r) }
+            } else if rooms == 2 && i % 20 == 7 {
+                gen::gen_many_courses_rooms(r)
+            } else {
+                gen::gen_instance(r, &p)
+            };
             if rooms == 2 && i % 6 == 2 {
                 gen::make_fixed_unpopular(r, &mut inst);
             }
@@ -271,6 +277,11 @@ pub fn gen_solve(r: &mut Rng, tier: &str, rooms: u8, name: &'static str) -> Vec<
             if rooms == 2 && i % 4 == 2 {
                 gen::make_fixed_unpopular(r, &mut inst);
             }
+            if rooms >= 1 && i % 10 == 3 {
+                // the f32 corners of the room stage, as whole runs
+                inst = if i % 20 == 3 { gen::gen_f32_shrink_does_not_fit(r) } else { gen::gen_f32_corner(r) };
+            }
+            let small = small && inst.parts.len() <= 7 && inst.courses.len() <= 4;
             let scheds: Vec<Value> = (0..scale(tier, 3, 6)).map(|_| Sched::gen(r).to_json()).collect();
             let threads: Vec<u64> = (0..scheds.len()).map(|j| [1u64, 2, 3, 4, 8][(i + j) % 5]).collect();
             Case { stream: name, data: json!({"inst": inst.to_json(), "scheds": scheds, "threads": threads, "brute": small}) }
@@ -283,7 +294,7 @@ fn solve_once(inst: &Inst, threads: u32, s: &Sched) -> sched::RunOut<Vec<Option<
     let courses = Arc::new(courses);
     let parts = Arc::new(parts);
     let rooms = inst.rooms.clone();
-    sched::run_sched(s, 2_000_000, move || cdecao::caobab::solve(courses, parts, rooms.as_ref(), false, threads))
+    sched::run_sched(s, 30_000, move || cdecao::caobab::solve(courses, parts, rooms.as_ref(), false, threads))
 }
 
 pub fn run_solve(data: &Value) -> Vec<Line> {
@@ -347,7 +358,16 @@ pub fn run_solve(data: &Value) -> Vec<Line> {
     // C03: same verdict and score under every schedule and thread count
     if let Some(first) = verdicts.first() {
         let same = verdicts.iter().all(|v| v.1 == first.1);
-        lines.push(Line::direct(&["C03"], same, format!("(threads, score) per schedule: {:?}", verdicts)).trivial(verdicts.len() < 2));
+        if !same && known_class {
+            // inside the class of the known findings F1/F11 (a participant with own choices instructs a
+            // non-fixed course) the relaxation of a child can exceed its parent's; it is the known
+            // finding only if the MODEL's tree of this instance is not Bounded either
+            let mut l = Line::spec(&["C03"], "B", it.clone(), "SUFFIX:bounded=false".to_string());
+            l.what = format!("KNOWN-IF-MATCH:unbounded_tree_freeable_instructor (threads, score) per schedule: {:?}", verdicts);
+            lines.push(l);
+        } else {
+            lines.push(Line::direct(&["C03"], same, format!("(threads, score) per schedule: {:?}", verdicts)).trivial(verdicts.len() < 2));
+        }
     }
     // C02 / C17: exact optimum by brute force
     if data["brute"].as_bool().unwrap_or(false) && !verdicts.is_empty() {
@@ -361,6 +381,7 @@ pub fn run_solve(data: &Value) -> Vec<Line> {
                     // model of the unchanged algorithm arrives at the same sub-optimal answer
                     let mut l = Line::spec(&["C02"], "B", it.clone(),
                         format!("best={} complete=true", got.map_or("none".to_string(), |g| g.to_string())));
+                    l.expect = format!("PREFIX:{}", l.expect);
                     l.what = format!("KNOWN-IF-MATCH:freeable_instructor reported {:?}, brute-force optimum {:?}", got, opt_norooms);
                     lines.push(l);
                 } else {
